@@ -597,6 +597,11 @@ def gen_C08(tier, seed, unit, nunits):
             for _ in range(scale(tier, 6, 60)):
                 h = hexs(G.malformed(rng, radix))
                 out.append(req(f'p_{rng.choice(PARSE_FORMS)}_{radix}', s, n, f, h))
+            if radix in (10, 16):
+                # the error's Display text: malformed literals of every kind, overflowing and parsing literals
+                for _ in range(scale(tier, 4, 40)):
+                    out.append(req(f'p_errmsg_{radix}', s, n, f, hexs(G.malformed(rng, radix))))
+                    out.append(req(f'p_errmsg_{radix}', s, n, f, hexs(G.literal_for(rng, s, n, f, radix).encode())))
     return {'text': out}
 
 def gen_C09(tier, seed, unit, nunits):
